@@ -59,6 +59,12 @@ CHECKS = {
     text='Faults are injected per attempt of individual logical requests (first 1, 2 or 3 attempts fail) on generated subsets of devices; the discovery fault space (device x request x attempts x before/after a good discovery) is enumerated completely for a 4-light population. Script-level fault plans are sampled, not enumerated.',
     design='DESIGN.md section 3, C12',
     note='Fault model is WorkflowException at the simulated lifxlan object; logical-request boundaries come from thin marker wrappers around bardolph.controller.lifx_lan_light methods; retry bound taken from the property text (three attempts).'),
+ 'C05': dict(
+    technique='generated programs; (a) structural relocation-map check plus exhaustive abstract exploration of the loaded instruction graph taking both arms of every conditional jump; (b) exhaustive enumeration of all 2^k decision tapes per program with conditions replaced by an injected [coin] built-in, differential against the reference interpreter',
+    category='exploration',
+    text='Per generated script ALL control-flow paths of the compiled image are covered twice: statically (every reachable abstract state (pc, frame stack) is visited, recursion depth <= 3) and dynamically (all 2^k condition outcomes, k = 6 quick / 10 thorough, run on the real VM). The set of scripts is sampled by Hypothesis.',
+    design='DESIGN.md section 3, C05',
+    note='Static part trusts the op-code semantics table in verif/checks/c05.py (JUMP/JSR/CTX/RETURN/END/LOOP/END_LOOP) and is independent of values; dynamic part trusts the reference interpreter. Routines defined inside if/repeat bodies are a recorded open finding and are excluded from generation by construction.'),
 }
 PENDING_REASON = 'check not built yet in this session; planned as described in DESIGN.md (property-based / fuzzing check, same runner)'
 
